@@ -237,8 +237,37 @@ def history(ctx, rng):
                       {"scenario": scen, "finding": {"err": world.obj.err}, "log_tail": world.log.dump(40)})
 
 
+def marathon(ctx, rng):
+    """ONE connection object used for tens of thousands of correctly answered requests (a stipple plot makes
+    that many in one session): per-object counters, histograms and buffers have no business failing a request."""
+    world = ebb3mon.World(board_kwargs={"version": "3.0.2"})
+    world.attach()
+    n = ctx.budget(66_500, 140_000)
+    for i in range(n):
+        if i % 3:
+            step = {"m": "command", "a": ["SM,%d,0,0" % (1 + i % 700)]}
+        else:
+            step = {"m": "query", "a": ["QS"]}
+        top, _ = ebb3mon.call_step(world, step)
+        res = None if top is None else top.get("result")
+        ok = top is not None and "raised" not in top and world.obj.__dict__.get("err") is None and \
+            (res is True if step["m"] == "command" else isinstance(res, str))
+        if not ok:
+            ctx.violation("correctly answered request failed on a long-lived object", {
+                "request_number_on_this_object": i + 1, "step": step, "returned": repr(res),
+                "raised": repr(top.get("raised")) if top else None, "err": world.obj.__dict__.get("err")})
+            break
+        if i % 5000 == 4999:
+            world.log.events.clear()
+            world.mon.done = []
+    ctx.case(["one object, tens of thousands of error-free requests"], ("marathon", n))
+    ctx.count("monitor:requests on the long-lived object", n)
+
+
 def run(ctx):
     rng = ctx.rng
+    marathon(ctx, rng)
+    ctx.need("one object, tens of thousands of error-free requests", 1)
     ctx.extra["registry"] = ebb3mon.registry_report()
     if ctx.extra["registry"]["public_methods_not_in_registry"] or ctx.extra["registry"]["registry_methods_missing_from_class"]:
         ctx.note("registry differs from the class: %s" % ctx.extra["registry"])
